@@ -87,7 +87,7 @@ def reader_rules(ctx, rep, key, name):
     decs = inlined_calls(g, c09.DECODE_KEY, P.live)
     if rep.expect("R07.5", "%s: decode of the bytes read" % name, len(decs) == 1):
         da = strip_ids(event_args(g, decs[0])[0])
-        if contains(da, lambda x: x == a[1]):
+        if contains(da, lambda x: x == a[1]) or contains_src(g, event_args(g, decs[0])[0], lambda x: x == a[1]):
             rep.ok("R07.5", "%s: decode(buffer read)" % name, "", where=g.where(decs[0]), nontrivial=False)
         else:
             ok = False
